@@ -500,3 +500,32 @@ Proof.
   destruct (execute_query_countsA C n HQ A (fresh_scratch C) HA (fresh_clean C)) as [H2 _].
   now rewrite H1, H2.
 Qed.
+
+(* ================= truth-table level: splitting on a feature ================= *)
+
+Lemma filter_split_length {T} (p q : T -> bool) (l : list T) :
+  length (filter p l) =
+  (length (filter (fun m => q m && p m) l) + length (filter (fun m => negb (q m) && p m) l))%nat.
+Proof.
+  induction l as [|a l IH]; [reflexivity|].
+  cbn [filter]. destruct (p a), (q a); cbn [andb negb length]; lia.
+Qed.
+
+Lemma memZ_neg_table (n : nat) (m : cfg) (x : Z) :
+  In m (all_cfgs n) -> 1 <= x <= Z.of_nat n -> memZ (- x) m = negb (memZ x m).
+Proof.
+  intros Hm Hx. rewrite <- (canon_asg_of n m Hm) at 1 2.
+  rewrite !memZ_canon by (rewrite ?Z.abs_opp; lia).
+  unfold lit_true. destruct (0 <? x) eqn:E1; [|apply Z.ltb_ge in E1; lia].
+  destruct (0 <? - x) eqn:E2; [apply Z.ltb_lt in E2; lia|]. now rewrite Z.opp_involutive.
+Qed.
+
+Theorem MCA_split : forall C n A x, 1 <= x <= Z.of_nat n ->
+  MCA C n A = MCA C n (x :: A) + MCA C n (- x :: A).
+Proof.
+  intros C n A x Hx. unfold MCA, ModelsA. rewrite <- Nat2Z.inj_add. f_equal.
+  rewrite (filter_split_length (contains_all A) (fun m => memZ x m) (Models C n)).
+  f_equal. f_equal. apply filter_ext_in. intros m Hm.
+  unfold contains_all. cbn [forallb]. f_equal. symmetry. apply (memZ_neg_table n); [|exact Hx].
+  unfold Models in Hm. apply filter_In in Hm. apply Hm.
+Qed.
